@@ -151,3 +151,11 @@ def systems_of_different_length(inp):
     if not isinstance(r3, str):
         bad.append({'process tensors with dt = 0.1 and dt = 0.2': 'accepted', 'both systems labelled on': r3})
     return {'violates': bool(bad), 'detail': bad}
+
+
+def field_linear_time_and_lengths(inp):
+    """obligations about several systems: the one-system field replay, then systems whose process tensors differ in length / time step"""
+    r = field_linear_time(inp)
+    if r.get('violates'):
+        return r
+    return systems_of_different_length(inp)
